@@ -64,6 +64,7 @@ FRAC_MAX_POINTS = 150  # the exact (Fraction) run of tune_centroid is made when 
 POS_TOL = 1e-9
 MARGIN_TOL = 1000  # margins travel scaled by 1e12: 1000 = 1e-9
 SIG_F21 = "adaptive-nonterminating:backstep-ascending-threshold>=1"
+SIG_ULP = "tune-out-of-range:park:float-rounding-of-boundary-centroid"
 
 
 def extract(ctx):
@@ -461,7 +462,11 @@ def oracle_tune(case, obs, mode):
                 bad.append(("tune-out-of-range:scan", f"point {i} at {p!r} outside [{lo}, {hi}]"))
                 break
         if park is not None and not inside(park):
-            bad.append(("tune-out-of-range:park", f"final park position {park!r} outside [{lo}, {hi}] for a non-negative signal"))
+            # one or two ulps outside = rounding of the float centroid fl(fl(x*I)/I) when all the weight sits on the
+            # boundary point (exact arithmetic gives the boundary itself); anything more is a different failure
+            tiny = mode == "float" and park == park and min(abs(park - lo), abs(park - hi)) <= 1e-12 * max(1.0, abs(lo), abs(hi))
+            sig = SIG_ULP if tiny else "tune-out-of-range:park"
+            bad.append((sig, f"final park position {park!r} outside [{lo}, {hi}] for a non-negative signal"))
     return bad
 
 
@@ -662,6 +667,8 @@ FIXED = [
     # negative weights: centroid 16 outside [0, 8] (Counterexamples/C29.lean) -- outside the property's hypothesis
     {"plan": "tune", "start": "0", "stop": "8", "min_step": "1/4", "num": 5, "step_factor": "2", "snake": False, "resp": {"kind": "pwl", "xs": ["0", "1", "7", "8"], "ys": ["-1", "0", "0", "2"]}, "np": False},
     {"plan": "tune", "start": "8", "stop": "0", "min_step": "1/16", "num": 10, "step_factor": "3", "snake": True, "resp": {"kind": "lorentz", "c": "5", "h": "4", "w": "1/2"}, "np": True},
+    # all the signal (0.1) on the start point: the float centroid fl(fl(-7.875*0.1)/0.1) = -7.875000000000001 < start
+    {"plan": "tune", "start": "-63/8", "stop": "-55/8", "min_step": "1/4", "num": 5, "step_factor": "2", "snake": False, "resp": {"kind": "step", "x0": "-503/64", "lo": "1/10", "hi": "0"}, "np": False},
 ]
 
 
